@@ -341,6 +341,19 @@ func runCheck(P *Program, DB *ContractDB, prop, tier string, only string) *check
 	}
 	// guarded fields: every module function that reads or writes one is verified
 	// (with an implicit empty contract unless it has one for this property)
+	// an implicit owner answers for the declarations whose field it touches itself;
+	// accesses of other guarded fields inside inlined callees are answered for by
+	// those callees, which are owners in their own right
+	ownedDecls := map[string][]string{}
+	for _, key := range sortedKeys(DB.Guarded) {
+		gd := DB.Guarded[key]
+		if !hasProp(gd.Props) {
+			continue
+		}
+		for _, fname := range guardedOwners(P, gd) {
+			ownedDecls[fname] = append(ownedDecls[fname], fmt.Sprintf("/guarded[%s.%s by %s]/", gd.Recv, gd.Field, gd.Mutex))
+		}
+	}
 	for _, key := range sortedKeys(DB.Guarded) {
 		gd := DB.Guarded[key]
 		if !hasProp(gd.Props) {
@@ -370,6 +383,7 @@ func runCheck(P *Program, DB *ContractDB, prop, tier string, only string) *check
 					k.Flags[f] = v
 				}
 				k.Lets = saved.Lets
+				k.Loops = saved.Loops // invariants are proved under their own property
 			}
 			DB.Funcs[fname] = k
 			var rep *FuncReport
@@ -390,8 +404,32 @@ func runCheck(P *Program, DB *ContractDB, prop, tier string, only string) *check
 				// only the lock-discipline obligations count for an implicit contract
 				var keep []*Obligation
 				for _, o := range rep.Obligations {
-					if o.Kind == "guarded" || o.Kind == "vacuity" && !o.Soft {
+					if o.Kind == "vacuity" && !o.Soft || o.Kind == "requires" && o.Tagged {
 						keep = append(keep, o)
+					}
+					if o.Kind == "guarded" {
+						own := false
+						for _, d := range ownedDecls[fname] {
+							if strings.Contains(o.Name, d) {
+								own = true
+								break
+							}
+						}
+						// an access inside an inlined callee that is not a module
+						// function in the owner list (a promoted-method wrapper)
+						// has nobody else to answer for it
+						if i := strings.LastIndex(o.Name, " in "); i >= 0 && !own {
+							callee := o.Name[i+4:]
+							if j := strings.LastIndex(callee, "#"); j >= 0 {
+								callee = callee[:j]
+							}
+							if _, isMod := P.Funcs[callee]; !isMod {
+								own = true
+							}
+						}
+						if own {
+							keep = append(keep, o)
+						}
 					}
 				}
 				rep.Obligations = keep
@@ -1209,11 +1247,65 @@ func guardedOwners(P *Program, gd *GuardedDecl) []string {
 				}
 			}
 		}
-		if found {
-			out = append(out, fname)
+		if found && !gd.Except[fname] {
+			// a closure that its parent runs itself (called or deferred in place) is
+			// checked inlined in the parent, where the lock context is known
+			for fn.Parent() != nil && runInPlace(fn) {
+				fn = fn.Parent()
+			}
+			out = append(out, QualName(fn))
 		}
 	}
-	return out
+	sort.Strings(out)
+	var ded []string
+	for i, f := range out {
+		if i == 0 || out[i-1] != f {
+			ded = append(ded, f)
+		}
+	}
+	return ded
+}
+
+// runInPlace: every use of the closure fn in its parent is as the callee of a
+// plain call or a defer (never `go`, never passed on or stored).
+func runInPlace(fn *ssa.Function) bool {
+	par := fn.Parent()
+	uses := 0
+	for _, b := range par.Blocks {
+		for _, in := range b.Instrs {
+			mc, ok := in.(*ssa.MakeClosure)
+			var refs []ssa.Instruction
+			if ok && mc.Fn == fn {
+				if mc.Referrers() != nil {
+					refs = *mc.Referrers()
+				}
+				for _, r := range refs {
+					switch u := r.(type) {
+					case *ssa.Defer:
+						if u.Call.Value != mc {
+							return false
+						}
+					case *ssa.Call:
+						if u.Call.Value != mc {
+							return false
+						}
+					case *ssa.DebugRef:
+					default:
+						return false
+					}
+					uses++
+				}
+				continue
+			}
+			if ci, ok := in.(ssa.CallInstruction); ok && ci.Common().Value == ssa.Value(fn) {
+				if _, isGo := in.(*ssa.Go); isGo {
+					return false
+				}
+				uses++
+			}
+		}
+	}
+	return uses > 0
 }
 
 func callSiteOwners(P *Program, cs *CallSitesDecl) []string {
